@@ -3,7 +3,11 @@
 search_on_break: when the Coq side no longer builds (typically: an axiom of the preamble was edited
 and PreambleOk.v fails), evaluate every axiom of the CURRENT standard_interpretation.p in the
 standard structure over a finite window and report the first falsifying tuple as the failing input.
-If the preamble is fine, fall back to the generic search (semantic ops on fresh outputs)."""
+If the preamble is fine, the semantic oracles run on fresh implementation outputs (oracle_search).
+
+extra (every run): the preamble axioms evaluated directly, the text-level theorems, the distribution of
+the chain_emit cases over the renaming classes, and the task-level chain check (chain_external +
+sem_chain_task: `c. q :- c, x R y.` vs `c. q.` through the real external-equivalence task)."""
 import itertools
 import os
 import sys
@@ -11,6 +15,7 @@ import sys
 sys.path.insert(0, os.path.join(os.path.dirname(os.path.abspath(__file__)), "..", "tools"))
 sys.path.insert(0, os.path.join(os.path.dirname(os.path.abspath(__file__)), "..", "bin"))
 import preamble2coq as p2c
+import vlib
 
 INTS = [-2, -1, 0, 1, 2]
 SYMS = ["", "a", "aB", "b"]
@@ -153,11 +158,179 @@ def search_preamble(ctx):
 
 
 def search_on_break(ctx, cfg, broken):
+    """a build / proof obligation broke: (1) a falsifying tuple of the current preamble; (2) the
+    semantic oracles on fresh implementation outputs (chain for the original constants, chain for the
+    printed names, transition axioms, task level); (3) CLI only, when the harness does not build"""
     if search_preamble(ctx):
         return True
-    import importlib.util
-    spec = importlib.util.spec_from_file_location("check_main", os.path.join(os.path.dirname(os.path.abspath(__file__)), "..", "bin", "check"))
-    return False
+    before = len(ctx.violations)
+    try:
+        vlib.build_harness()
+    except vlib.Broken:
+        cli_search(ctx, cfg)
+        return any(f for _, _, f in ctx.violations[before:])
+    if not os.path.exists(vlib.DRIVER_EXE):
+        return False
+    return oracle_search(ctx, cfg)
+
+
+# ------------------------------------------------------------------ the chain, for the ORIGINAL constants
+
+def _arg(line):
+    return line.split("\t", 1)[1]
+
+
+def _applicable(out):
+    return not (out.startswith("(panic") or out.startswith("(harness-error") or out.startswith("(process-died"))
+
+
+def chain_distribution(ctx, results):
+    """which share of the chain_emit cases has a clash, and on which side of the F8c class boundary
+    (driver op chain_kind = the extracted rename_monotoneb) - printed into the evidence"""
+    if "chain_emit" not in results:
+        return
+    lines = results["chain_emit"][0]
+    kinds = vlib.run_lines(vlib.DRIVER_EXE, ["chain_kind\t" + _arg(l) for l in lines])
+    hist = {}
+    for k in kinds:
+        hist[k] = hist.get(k, 0) + 1
+    ctx.distribution.setdefault("chain_emit", {})["renaming_class"] = hist
+    vlib.log("chain_emit cases by renaming class: " + ", ".join(f"{k}={v}" for k, v in sorted(hist.items())))
+
+
+def task_level(ctx, cfg, count=None):
+    """chain_external: small external-equivalence tasks `c. q :- c, x R y.` vs `c. q.` through the real
+    ExternalEquivalenceTask::decompose + Display; sem_chain_task judges the ordering axioms of every
+    emitted text for the user's constants"""
+    tl = cfg.get("task_level")
+    if not tl:
+        return False
+    n = count if count is not None else tl.get(ctx.tier, tl["quick"])
+    lines = vlib.corpus_lines([tl["op"]]) + vlib.generate(tl["op"], ctx.seed, n)
+    impl = vlib.run_lines(vlib.HARNESS_EXE, lines)
+    idx = [i for i in range(len(lines)) if _applicable(impl[i])]
+    sl = [f"{tl['sem_op']}\t({_arg(lines[i])} {impl[i]})" for i in idx]
+    outs = vlib.run_lines(vlib.DRIVER_EXE, sl)
+    kinds, points, judged, excused, bad = {}, 0, 0, 0, 0
+    for o in impl:
+        k = o.split(" ", 1)[0].strip("()")
+        kinds[k] = kinds.get(k, 0) + 1
+    for k, o in enumerate(outs):
+        w = o.strip("()").split()
+        if o.startswith("(ok"):
+            points += int(w[1])
+            if "problems-judged" in w:
+                judged += int(w[w.index("problems-judged") + 1])
+            if "excused-as-F8c" in w:
+                excused += int(w[w.index("excused-as-F8c") + 1])
+        elif o.startswith("(cex"):
+            bad += 1
+            if bad <= 2:
+                i = idx[k]
+                ctx.violation(f"task level: an ordering axiom of an emitted problem is wrong for the user's constants (`{tl['sem_op']}`)",
+                              {"kind": "semantic", "sem_op": tl["sem_op"], "sem_input": _arg(sl[k]), "counterexample": o,
+                               "op": tl["op"], "input": _arg(lines[i])}, True)
+        elif o.startswith("(driver-error"):
+            ctx.violation(f"semantic check `{tl['sem_op']}` could not evaluate a case",
+                          {"kind": "semantic-error", "sem_op": tl["sem_op"], "sem_input": _arg(sl[k]), "error": o}, False)
+            break
+    ctx.sem_evaluations += len(sl)
+    ctx.sem_points += points
+    ctx.distribution[tl["op"]] = {"cases": len(lines), "output_kinds": kinds, "problems_judged": judged,
+                                  "links_judged": points, "links_excused_as_F8c": excused,
+                                  "input_size_nodes": vlib.histogram([vlib.sexp_size(_arg(x)) for x in lines])}
+    vlib.log(f"task level {tl['op']}/{tl['sem_op']}: {len(lines)} tasks, {judged} problems judged, {points} links, "
+             f"{excused} excused as F8c, {bad} counterexamples")
+    return bad > 0
+
+
+def oracle_search(ctx, cfg):
+    """the semantic oracles on fresh implementation outputs (no model involved)"""
+    before = len(ctx.violations)
+    for s in cfg.get("sem", []):
+        op = s.get("of")
+        if not op:
+            continue
+        lines = vlib.corpus_lines([op]) + vlib.generate(op, ctx.seed, s["quick"])
+        impl = vlib.run_lines(vlib.HARNESS_EXE, lines)
+        idx = [i for i in range(len(lines)) if _applicable(impl[i])]
+        sl = [f"{s['op']}\t({_arg(lines[i])} {impl[i]})" for i in idx]
+        outs = vlib.run_lines(vlib.DRIVER_EXE, sl)
+        cex = [k for k, o in enumerate(outs) if o.startswith("(cex")]
+        vlib.log(f"search: {s['op']} on {len(sl)} fresh outputs of {op}: {len(cex)} counterexamples")
+        if cex:
+            k = min(cex, key=lambda k: len(sl[k]))
+            ctx.violation(f"semantic check `{s['op']}` found a counterexample on the implementation's output",
+                          {"kind": "semantic", "sem_op": s["op"], "sem_input": _arg(sl[k]), "counterexample": outs[k],
+                           "op": op, "input": _arg(lines[idx[k]])}, True)
+    task_level(ctx, cfg)
+    return any(f for _, _, f in ctx.violations[before:])
+
+
+# ------------------------------------------------------------------ CLI only (the harness does not build)
+
+# (clashing atom/constant c, x, relation, y): every comparison is TRUE in the standard order; all
+# outside the recorded class F8c (no constant d with c < d <= c__s)
+CLI_TASKS = [("a", "a", "lt", "b"), ("a", "a", "lt", "m"), ("a", "a", "lt", "sa"), ("m", "b", "lt", "m"),
+             ("t", "s", "lt", "t"), ("s", "s", "lt", "s__z"), ("b", "b", "lt", "t"), ("p", "p", "lt", "z")]
+REL_TEXT = {"lt": "<", "le": "<=", "gt": ">", "ge": ">=", "eq": "=", "ne": "!="}
+
+
+def sx_string(text):
+    out = ['"']
+    for b in text.encode():
+        if b in (0x22, 0x5c):
+            out.append("\\" + chr(b))
+        elif 32 <= b <= 126:
+            out.append(chr(b))
+        else:
+            out.append("\\x%02x" % b)
+    out.append('"')
+    return "".join(out)
+
+
+def cli_task_sexp(c, x, rel, y):
+    return (f'(external (spec-program (program (rule (basic ("{c}")) ()) (rule (basic ("q")) ((pos ("{c}")) (cmp {rel} (sy "{x}") (sy "{y}")))))) '
+            f'(program (rule (basic ("{c}")) ()) (rule (basic ("q")) ())) (ug (output ("q" 0)) (output ("{c}" 0))) (spec) '
+            f'independent universal tau-star false true false)')
+
+
+def cli_run_task(exe, scratch, k, c, x, rel, y):
+    d = os.path.join(scratch, f"t{k}")
+    os.makedirs(os.path.join(d, "out"))
+    clilib.write(os.path.join(d, "prog.1.lp"), f"{c}.\nq :- {c}, {x} {REL_TEXT[rel]} {y}.\n".encode())
+    clilib.write(os.path.join(d, "prog.2.lp"), f"{c}.\nq.\n".encode())
+    clilib.write(os.path.join(d, "guide.ug"), f"output: q/0.\noutput: {c}/0.\n".encode())
+    r = clilib.run([exe, "verify", "--equivalence", "external", "--no-proof-search", "--save-problems", os.path.join(d, "out"),
+                    os.path.join(d, "prog.1.lp"), os.path.join(d, "prog.2.lp"), os.path.join(d, "guide.ug")], timeout=20.0)
+    texts = [open(os.path.join(d, "out", f), encoding="utf8", errors="replace").read() for f in sorted(os.listdir(os.path.join(d, "out")))]
+    return r, texts
+
+
+def cli_search(ctx, cfg):
+    """the fixed tasks through the anthem CLI of the tree (`verify --save-problems`), judged by sem_chain_task"""
+    global clilib
+    import clilib
+    if not os.path.exists(vlib.DRIVER_EXE):
+        ctx.notes.append("cli_search: no model driver from an earlier build")
+        return
+    exe = clilib.anthem_exe()
+    with clilib.Scratch("C12") as scratch:
+        sl, cmds = [], []
+        for k, (c, x, rel, y) in enumerate(CLI_TASKS):
+            r, texts = cli_run_task(exe, scratch, k, c, x, rel, y)
+            if not texts:
+                continue
+            sl.append(f"sem_chain_task\t({cli_task_sexp(c, x, rel, y)} (ok {' '.join(sx_string(t) for t in texts)}))")
+            cmds.append({"prog.1.lp": f"{c}. q :- {c}, {x} {REL_TEXT[rel]} {y}.", "prog.2.lp": f"{c}. q.", "guide.ug": f"output: q/0. output: {c}/0.",
+                         "command": "anthem verify --equivalence external --no-proof-search --save-problems out prog.1.lp prog.2.lp guide.ug"})
+    outs = vlib.run_lines(vlib.DRIVER_EXE, sl)
+    bad = [k for k, o in enumerate(outs) if o.startswith("(cex")]
+    vlib.log(f"cli search: {len(sl)} fixed tasks through the CLI, {len(bad)} counterexamples")
+    for k in bad[:1]:
+        ctx.violation("CLI: an ordering axiom of a saved problem is wrong for the user's constants (`sem_chain_task`)",
+                      {"kind": "semantic", "sem_op": "sem_chain_task", "sem_input": _arg(sl[k]), "counterexample": outs[k],
+                       "files": cmds[k]}, True)
 
 
 def check_text_level(ctx):
@@ -176,6 +349,8 @@ def extra(ctx, cfg, results):
     # the axioms of the working tree's preamble, evaluated directly as well (cheap, independent of Coq)
     search_preamble(ctx)
     check_text_level(ctx)
+    chain_distribution(ctx, results)
+    task_level(ctx, cfg)
 
 
 def replay(ctx, cfg, r):
